@@ -74,6 +74,11 @@ class IsoDepInitiator(object):
         self.delta_fwt = 49152 / 13.56E6
         self.n_retry_ack = min(int(1/self.fwt), 5)
         self.n_retry_nak = self.n_retry_ack
+        # A card may request more time with S(WTX) and may send the
+        # response in any number of chained blocks. Within one exchange
+        # no more of both are accepted than the largest response APDU
+        # has bytes, a card that goes on is not going to finish.
+        self.max_extra_blocks = 65538
 
     def exchange(self, command, timeout=None):
         if timeout is None:
@@ -85,6 +90,7 @@ class IsoDepInitiator(object):
             self.clf.exchange(data, timeout)
             return
 
+        n_extra = 0
         for offset in range(0, len(command), self.miu):
             more = len(command) - offset > self.miu
             pfb = pack('B', (0x02, 0x12)[more] | self.pni)
@@ -99,6 +105,9 @@ class IsoDepInitiator(object):
                         log.debug("ISO-DEP waiting time extension")
                         if len(data) < 2:
                             raise nfc.clf.ProtocolError("WTX without WTXM")
+                        n_extra += 1
+                        if n_extra > self.max_extra_blocks:
+                            raise nfc.clf.ProtocolError("WTX without end")
                         wtx_timeout = (data[1] & 0x3F) * self.fwt
                         data = self.clf.exchange(data, wtx_timeout)
                         if len(data) == 0:
@@ -146,6 +155,10 @@ class IsoDepInitiator(object):
                     raise Type4TagCommandError(nfc.tag.PROTOCOL_ERROR)
 
         while bool(data[0] & 0b00010000):
+            n_extra += 1
+            if n_extra > self.max_extra_blocks:
+                log.error("ISO-DEP protocol error: response without end")
+                raise Type4TagCommandError(nfc.tag.PROTOCOL_ERROR)
             data = pack('B', 0xA2 | self.pni)  # ACK
 
             for i in itertools.count(start=1):  # pragma: no branch
@@ -157,6 +170,9 @@ class IsoDepInitiator(object):
                         log.debug("ISO-DEP waiting time extension")
                         if len(data) < 2:
                             raise nfc.clf.ProtocolError("WTX without WTXM")
+                        n_extra += 1
+                        if n_extra > self.max_extra_blocks:
+                            raise nfc.clf.ProtocolError("WTX without end")
                         wtx_timeout = (data[1] & 0x3F) * self.fwt
                         data = self.clf.exchange(data, wtx_timeout)
                         if len(data) == 0:
